@@ -24,21 +24,22 @@ func (r Result) String() string { return [...]string{"unsat", "sat", "unknown"}[
 
 // Session is one live solver process used incrementally.
 type Session struct {
-	Kind    string // "z3", "z3-new", "cvc5"
-	cmd     *exec.Cmd
-	in      io.WriteCloser
-	out     *bufio.Reader
-	P       *Printer
-	depth   int
-	Queries int
-	Time    time.Duration
-	MaxMs   float64
-	Errors  []string
-	Log     io.Writer // optional transcript
-	Timeout int       // ms per check-sat
-	marker  int
-	dead    bool
+	Kind        string // "z3", "z3-new", "cvc5"
+	cmd         *exec.Cmd
+	in          io.WriteCloser
+	out         *bufio.Reader
+	P           *Printer
+	depth       int
+	Queries     int
+	Time        time.Duration
+	MaxMs       float64
+	Errors      []string
+	Log         io.Writer // optional transcript
+	Timeout     int       // ms per check-sat
+	marker      int
+	dead        bool
 	lastHadPush bool
+	PlainCheck  bool // use plain (check-sat) instead of the bit-blasting tactics
 }
 
 func NewSession(kind string, timeoutMs int) (*Session, error) {
@@ -164,10 +165,18 @@ func (s *Session) Check(extra *Term) Result {
 	}
 	s.flushDefs()
 	t0 := time.Now()
+	cs := "(check-sat)\n"
+	if s.Kind != "cvc5" && !s.P.HasInt && !s.PlainCheck {
+		if s.P.HasFP {
+			cs = "(check-sat-using qffp)\n"
+		} else {
+			cs = "(check-sat-using qfbv)\n"
+		}
+	}
 	if extra != nil {
-		s.send("(push 1)\n(assert " + r + ")\n(check-sat)\n")
+		s.send("(push 1)\n(assert " + r + ")\n" + cs)
 	} else {
-		s.send("(check-sat)\n")
+		s.send(cs)
 	}
 	lines := s.sync()
 	d := time.Since(t0)
@@ -424,3 +433,6 @@ func (s *Session) Eval(t *Term) ModelValue {
 	s.Errors = append(s.Errors, "Eval: cannot parse "+strings.Join(lines, " "))
 	return ModelValue{Sort: t.Sort}
 }
+
+// Name returns the canonical solver-side name of t (defining it if needed).
+func (s *Session) Name(t *Term) string { return s.P.Ref(t) }
